@@ -1,5 +1,7 @@
 package gts
 
+import "regexp"
+
 // C19 — feature selection and sorted insertion.
 
 func vGenOrdLoc(name string, L int, rich bool) Location {
@@ -189,3 +191,97 @@ func VH_C19_filters() {
 	vAssert("filter-exact", j == len(got))
 	vObserve("kept", len(got))
 }
+
+// ---- selectors ------------------------------------------------------------------------------
+
+// vRefSelector: reference semantics of '[key][/[name][=regexp]]...' written from the documentation.
+// match(re, v) is the same (uninterpreted) regexp verdict the real code sees.
+func vRefSelector(sel string, f Feature, match func(re, v string) bool) bool {
+	pieces := []string{""}
+	for i := 0; i < len(sel); i++ {
+		if sel[i] == '/' {
+			pieces = append(pieces, "")
+		} else {
+			pieces[len(pieces)-1] += string(sel[i])
+		}
+	}
+	ok := true
+	if pieces[0] != "" {
+		ok = f.Key == pieces[0]
+	}
+	for k, c := range pieces[1:] {
+		if c == "" && k == len(pieces)-2 {
+			continue // a trailing '/' adds no clause
+		}
+		name, re := c, ""
+		for i := 0; i < len(c); i++ {
+			if c[i] == '=' {
+				name, re = c[:i], c[i+1:]
+				break
+			}
+		}
+		sat := false
+		for _, kv := range f.Props {
+			if name != "" && kv[0] != name {
+				continue
+			}
+			for _, v := range kv[1:] {
+				if name != "" && re == "" {
+					sat = true
+				} else {
+					sat = vOr(sat, match(re, v))
+				}
+			}
+			if name != "" && re == "" {
+				sat = true // the qualifier is present
+			}
+		}
+		ok = vAnd(ok, sat)
+	}
+	return ok
+}
+
+//verif:harness prop=C19 quick=4 thorough=8 merge=concrete
+//verif:bounds Selector on a fixed list of selector strings assembled from key {a,b,""}, clause names {n,m,""}, regexps {x,""}; one feature with symbolic one-letter key, two qualifiers with symbolic one-letter names (possibly equal) and 1-2 symbolic one-letter values each
+//verif:assume regexp verdicts on symbolic values are an uninterpreted predicate of (pattern, value), shared by the code and the reference
+func VH_C19_selector() {
+	sels := [][]string{
+		{"", "a", "b", "a/", "/n"},
+		{"a/n", "/n=x", "a/n=x", "/=x", "a/=x"},
+		{"/n/m", "/n=x/m", "a/n=x/m=x", "/n=", "a//n"},
+		{"/n=x/=x", "b/m=x", "/=", "//", "/m/n=x"},
+	}
+	sh := vShard(4 + 4*vTier())
+	list := sels[sh%4]
+	key := string(vBytesIn("key", 1, 'a', 'b'))
+	n1 := string(vBytesIn("n1", 1, 'm', 'n'))
+	n2 := string(vBytesIn("n2", 1, 'm', 'n'))
+	v1 := string(vBytesIn("v1", 1, 'x', 'y'))
+	v2 := string(vBytesIn("v2", 1, 'x', 'y'))
+	props := Props{}
+	props.Add(n1, v1)
+	if sh >= 4 {
+		props.Add(n1, string(vBytesIn("v1b", 1, 'x', 'y'))) // a multi-valued qualifier
+	}
+	props.Add(n2, v2) // same name as n1: the value is added to that qualifier
+	f := Feature{key, Range(0, 1), props}
+	match := func(re, v string) bool {
+		r, err := regexpCompileForHarness(re)
+		if err != nil {
+			return false
+		}
+		return r.MatchString(v)
+	}
+	for _, sel := range list {
+		filter, err := Selector(sel)
+		vAssert("selector-compiles", err == nil)
+		if err != nil {
+			continue
+		}
+		vCover("selected")
+		vAssert("selector-semantics", filter(f) == vRefSelector(sel, f, match))
+	}
+	vObserve("n", len(props))
+}
+
+func regexpCompileForHarness(re string) (*regexp.Regexp, error) { return regexp.Compile(re) }
